@@ -206,6 +206,30 @@ func Acquire(m any, write bool, site string) {
 	s.park(&waiter{site: site, lock: m, write: write, ch: make(chan struct{})})
 }
 
+// TryAcquire records the outcome of a real TryLock / TryRLock in S's model of mutex m.
+func TryAcquire(m any, write bool, ok bool) bool {
+	s := cur
+	if s == nil || !ok {
+		return ok
+	}
+	gid := simGoid()
+	s.mu.Lock()
+	ls := s.locks[m]
+	if ls == nil {
+		ls = &lockState{readerG: map[int]int{}}
+		s.locks[m] = ls
+	}
+	g := s.labels[gid]
+	if write {
+		ls.writer, ls.writerG = true, g
+	} else {
+		ls.readers++
+		ls.readerG[g]++
+	}
+	s.mu.Unlock()
+	return ok
+}
+
 // Release updates S's model of mutex m.
 func Release(m any, write bool) {
 	s := cur
